@@ -200,6 +200,31 @@ fn draw(rng: &mut Rng, image: &[u8], n: usize, slice: u64) -> Vec<Alteration> {
             continue;
         }
         let (off, len) = pool[rng.usize(pool.len())];
+        // structure-aware: the offset tables of a B-tree page (documented layout: byte 0 = page
+        // type, bytes 2..4 = entry count; a branch then holds (n+1) checksums, (n+1) child numbers
+        // and n key ends; a leaf holds its key/value ends from byte 4). A flipped high bit there
+        // moves an entry boundary beyond the page, which only a bounds-checking verifier notices.
+        if rng.chance(3, 10) && len >= 64 && (off + len) as usize <= image.len() {
+            let page = &image[off as usize..(off + len) as usize];
+            let n = u16::from_le_bytes([page[2], page[3]]) as u64;
+            let (start, words) = match page[0] {
+                2 => (8 + 24 * (n + 1), n),
+                1 => (4, 2 * n),
+                _ => (0, 0),
+            };
+            if words > 0 && start + 4 * words <= len {
+                // the last entries of the table are the ones nothing else cross-checks
+                let w = if rng.chance(1, 2) { words - 1 - rng.below(words.min(2)) } else { rng.below(words) };
+                let byte = rng.below(4);
+                let at = off + start + 4 * w + byte;
+                out.push(if rng.chance(2, 3) {
+                    Alteration::Bit { off: at, bit: rng.below(8) as u8 }
+                } else {
+                    Alteration::Byte { off: at, val: rng.next() as u8 }
+                });
+                continue;
+            }
+        }
         // bias towards the used head of the page (type byte, counts, offsets, first entries)
         let within = match rng.below(4) {
             0 => rng.below(8.min(len)),
